@@ -589,6 +589,12 @@ class Gen:
             # expression-if: both branches must be tail expressions
             raise Untranslatable("if used as an expression value")
         if kind == "fncall":
+            mfb = re.fullmatch(r"(u8|u16|u32|u64)::from_(le|be)_bytes", e[1])
+            if mfb and len(e[2]) == 1:
+                def kfb(a, ta):
+                    if not (isinstance(ta, tuple) and ta[0] == "arr"): raise Untranslatable("%s of a non-array" % e[1])
+                    return k("(le_to_N %s)" % (a if mfb.group(2) == "le" else "(rev %s)" % a), mfb.group(1))
+                return self.expr(e[2][0], kfb)
             if e[1] in ("usize::from", "u16::from", "u32::from", "u64::from") and len(e[2]) == 1:
                 tgt = e[1].split("::")[0]
                 def kf(a, ta):
